@@ -128,7 +128,8 @@ def _parse_retry_after(header_value: str) -> float | None:
         dt = parsedate_to_datetime(header_value)
         delay = (dt - datetime.now(tz=UTC)).total_seconds()
         return max(0.0, delay)
-    except (ValueError, TypeError):
+    except (ValueError, TypeError, OverflowError):
+        # OverflowError: a date field too large for datetime (e.g. an absurd year).
         return None
 
 
